@@ -415,6 +415,39 @@ func runC08(c *Ctx, tier string) {
 	for _, s := range meta08LockSpecs {
 		checkLockSpec(c, "C08", s)
 	}
+	// L3: pulling the next object from the lister and stashing it is one critical section
+	c.Rule("C08-L3", "the slicer pulls from its (shared) parent and stashes the result in one critical section: the mutex is held at the call to s.parent.Pull, otherwise two scatter legs can stash objects out of lister order and a leg receives a smaller key range after a larger one")
+	if sp := p.Func("(*runtime/sam/op/meta.Slicer).Pull"); sp == nil {
+		c.Undecided("C08-L3", "(*runtime/sam/op/meta.Slicer).Pull", "anchor does not resolve")
+	} else {
+		n := 0
+		for _, fn := range p.FuncsIn("runtime/sam/op/meta") {
+			if fn.Signature.Recv() == nil || namedOf(fn.Signature.Recv().Type()) != "runtime/sam/op/meta.Slicer" {
+				continue
+			}
+			sum := analyseLock(fn, meta08LockSpecs[1], lockState{})
+			for _, cl := range sum.anyCalls {
+				cc := cl.in.Common()
+				if !cc.IsInvoke() || cc.Method.Name() != "Pull" || !isFieldLoad(cc.Value, "parent") {
+					continue
+				}
+				if k, ok := cc.Args[0].(*ssa.Const); ok && k.Value != nil && k.Value.String() == "true" {
+					continue // Pull(done=true): shutting down
+				}
+				n++
+				construct := fnName(fn) + " pulls from the shared parent"
+				if cl.state.held == 2 {
+					// and stays locked until the object is stashed
+					c.OK("C08-L3", construct, cl.in.Pos(), "with the slicer's mutex held")
+				} else {
+					c.Fail("C08-L3", construct, cl.in.Pos(), "the slicer's mutex is not held while it pulls the next object from its parent: with several scatter legs, object N+1 can be stashed before object N, a partition is closed early and a leg is later handed a key range below one it already emitted — the merged result differs from parallelism 1")
+				}
+			}
+		}
+		if n == 0 {
+			c.Undecided("C08-L3", "(*runtime/sam/op/meta.Slicer).Pull", "no pull from the parent found")
+		}
+	}
 	runLegsGetCopies(c, "C08-D2")
 	runPartialsPairing(c, "C08-D3")
 	c.borrow(func(t *Ctx) { runC07(t, "quick") }, map[string]string{"C07-D5": "C08-D5"})
